@@ -16,10 +16,14 @@ Norm(n, d) ==
 R(n)        == <<n, 1>>
 Zero        == <<0, 1>>
 One         == <<1, 1>>
-RAdd(a, b)  == Norm(a[1] * b[2] + b[1] * a[2], a[2] * b[2])
+RAdd(a, b)  == LET g == GCD(a[2], b[2])          \* via the lcm, to stay inside 32 bits longer
+               IN  Norm(a[1] * (b[2] \div g) + b[1] * (a[2] \div g), (a[2] \div g) * b[2])
 RNeg(a)     == <<-a[1], a[2]>>
 RSub(a, b)  == RAdd(a, RNeg(b))
-RMul(a, b)  == Norm(a[1] * b[1], a[2] * b[2])
+RMul(a, b)  == LET g1 == GCD(Abs(a[1]), b[2])     \* cross-cancel before multiplying
+                   g2 == GCD(Abs(b[1]), a[2])
+               IN  IF a[1] = 0 \/ b[1] = 0 THEN <<0, 1>>
+                   ELSE <<(a[1] \div g1) * (b[1] \div g2), (a[2] \div g2) * (b[2] \div g1)>>
 RInv(a)     == Norm(a[2], a[1])
 RDiv(a, b)  == RMul(a, RInv(b))
 RIsZero(a)  == a[1] = 0
